@@ -29,6 +29,7 @@ import NemoVerif.Lemmas.ErrRestartVM
 import NemoVerif.Lemmas.ErrExtVM
 import NemoVerif.Lemmas.SlideStepVM
 import NemoVerif.Lemmas.ErrHandleVM
+import NemoVerif.Lemmas.ErrReport
 
 namespace NemoVerif.C10
 open NemoVerif.SlideGraph NemoVerif.ErrContain NemoVerif.RoundMachine
@@ -1043,3 +1044,182 @@ def demoVM5 : VM := { demoVM4 with ixs := demoIx5 }
 example : ∃ s', advanceHeadFront 4 [("f", "h")] demoVM5 = .ok [] s' ∧ startCount s' = 1 ∧
     s'.r.queue.map (·.ev.name) = ["StartFlow", "ColangError", "FlowFailed"] := ⟨_, rfl, rfl, rfl⟩
 end NemoVerif.C10.VM
+
+/-! ## Phase 5 — the error-report loop: flows that REACT to `ColangError` (`Models/ErrReport.lean`)
+
+  A flow `match ColangError() as $event ; <body>` that is activated is woken by every reported runtime error; if its own body raises
+  while it handles a report, that error is reported, the flow is restarted, matches the new report, … inside one `run_to_completion`
+  call.  The loop terminates iff the handler does not raise on the texts that are reported — for the shipped helper
+  `warning of colang errors` (`$info = "Colang error: {$event.type} - {escape($event.error)}"`) this is `escape` being total and
+  producing a text that can stand inside a string literal: `escape_yields_valid_literal`.
+  Tie (every run): driver op `C10.escape` — the model's `escapeStr` / `escSpecial` / `validLit ∘ render` against the real `_escape_string`,
+  `escape_special_string_characters` and `eval_expression` on every error text of every generated run; the static analysis of handler
+  flows (`harness/impl/c10_handlers.py::handler_total`) against `tplTotal`; the rounds of programs with handler flows are replayed in
+  phases on the token machine (`phased_round_bound`). -/
+namespace NemoVerif.C10.Report
+open NemoVerif.ErrReport
+
+/-- what `escape` guarantees: its result is accepted by the scanner `A5` — every backslash starts a pair `\\ \{ \} \' \" \0`, no
+    quote and no NUL stands bare -/
+theorem escape_scanned (s : Str) : A5.run .N (escapeStr s) = some .N := by
+  have h0 := rep1_backslash s
+  have h1 := rep2_pass A0 '{' (by decide) (by decide) _ _ (Nat.le_refl _) .N .N h0
+  have h2 := rep2_pass A1 '}' (by decide) (by decide) _ _ (Nat.le_refl _) .N .N h1
+  have h3 := rep1_pass A2 '\'' '\'' [] (by decide) (by decide) rfl _ .N .N h2
+  have h4 := rep1_pass A3 '"' '"' [] (by decide) (by decide) rfl _ .N .N h3
+  exact rep1_pass A4 nul '0' ['0', '0'] (by decide) (by decide) (by decide) _ .N .N h4
+
+theorem quotes_bad_A5 : ∀ c, isQuote c = true → A5.nbad c = true ∧ c ≠ '\\' := by
+  intro c hc
+  simp only [isQuote, Bool.or_eq_true, decide_eq_true_eq] at hc
+  rcases hc with rfl | rfl <;> decide
+
+/-- … and `escape_special_string_characters` applied to it (as `eval_expression` does with the value of every inner expression)
+    leaves the quotes alone and writes the control characters as escapes -/
+theorem escape_special_scanned (s : Str) : A11.run .N (escSpecial (escapeStr s)) = some .N := by
+  have h5 := escape_scanned s
+  have e : escQ0 (escapeStr s) = escapeStr s := escQ0_id A5 quotes_bad_A5 _ _ h5
+  unfold escSpecial
+  rw [e]
+  have h6 := rep1_pass A5 '\n' 'n' [] (by decide) (by decide) rfl _ .N .N h5
+  have h7 := rep1_pass A6 '\t' 't' [] (by decide) (by decide) rfl _ .N .N h6
+  have h8 := rep1_pass A7 '\r' 'r' [] (by decide) (by decide) rfl _ .N .N h7
+  have h9 := rep1_pass A8 '\x08' 'b' [] (by decide) (by decide) rfl _ .N .N h8
+  have h10 := rep1_pass A9 '\x0c' 'f' [] (by decide) (by decide) rfl _ .N .N h9
+  exact rep1_pass A10 '\x0b' 'v' [] (by decide) (by decide) rfl _ .N .N h10
+
+theorem A11_le_Py (d : Char) (hd : d = '"' ∨ d = '\'') (s : Str) (q q' : Q) (h : A11.run q s = some q') : (Py d).run q s = some q' := by
+  refine run_mono A11 (Py d) ?_ ?_ s q q' h
+  · intro c hc
+    simp only [Py, Bool.or_eq_true, decide_eq_true_eq] at hc
+    rcases hd with rfl | rfl <;> rcases hc with ((rfl | rfl) | rfl) | rfl <;> decide
+  · intro c hc
+    simp only [A11, A10, A9, A8, A7, A6, A5, A4, A3, A2, A1, A0, Aut.ext1, Aut.ext2, Bool.or_eq_true, decide_eq_true_eq] at hc
+    rcases hd with rfl | rfl <;> rcases hc with rfl | rfl | rfl | rfl | rfl | rfl | rfl | rfl | rfl | rfl | rfl | rfl <;> decide
+
+
+theorem brace_ok (d : Char) (hd : d = '"' ∨ d = '\'') (a : Char) (ha : a = '{' ∨ a = '}') :
+    a ≠ '\\' ∧ (Py d).nbad a = false ∧ (Py d).eok a = true := by
+  rcases hd with rfl | rfl <;> rcases ha with rfl | rfl <;> decide
+
+/-- the `{{` / `}}` collapse of `eval_expression` does not change whether the literal is well formed -/
+theorem collapse_valid (d : Char) (hd : d = '"' ∨ d = '\'') (s : Str) : validLit d (collapse s) = validLit d s := by
+  unfold validLit collapse
+  have b1 := brace_ok d hd '}' (Or.inr rfl)
+  have b2 := brace_ok d hd '{' (Or.inl rfl)
+  rw [col_run (Py d) '}' b1.1 b1.2.1 b1.2.2 _ _ (Nat.le_refl _), col_run (Py d) '{' b2.1 b2.2.1 b2.2.2 _ _ (Nat.le_refl _)]
+
+/-- **`escape_yields_valid_literal`**: for EVERY text `s`, the text `escape(s)` interpolated (`{escape(…)}`: `eval_expression` applies
+    `escape_special_string_characters` to the value and collapses `{{` / `}}` afterwards) between well-formed literal pieces `pre` / `post`
+    of a single- or double-quoted template yields a well-formed Python string literal — `escape` is total and its result never ends or
+    breaks the literal it is put into.  (Seed C10-d breaks exactly this: `seed_escape_counterexample`.) -/
+theorem escape_yields_valid_literal (d : Char) (hd : d = '"' ∨ d = '\'') (pre post s : Str)
+    (hpre : (Py d).run .N pre = some .N) (hpost : (Py d).run .N post = some .N) :
+    validLit d (collapse (pre ++ escSpecial (escapeStr s) ++ post)) = true := by
+  rw [collapse_valid d hd]
+  have hm := A11_le_Py d hd _ .N .N (escape_special_scanned s)
+  have := run_append_ok (Py d) (run_append_ok (Py d) hpre hm) hpost
+  rw [List.append_assoc] at this
+  simp [validLit, this]
+
+theorem segs_valid (d : Char) (hd : d = '"' ∨ d = '\'') (txt sv : Nat → Str) (hsv : ∀ i, (Py d).run .N (sv i) = some .N) :
+    ∀ (tpl : List Seg) (i : Nat), tplTotal d tpl = true → (Py d).run .N (renderSegs txt sv i tpl) = some .N := by
+  intro tpl
+  induction tpl with
+  | nil => intro i _; rfl
+  | cons sg r ih =>
+    intro i ht
+    simp only [tplTotal, List.all_cons, Bool.and_eq_true] at ht
+    have hr := ih (i + 1) (by simpa [tplTotal] using ht.2)
+    have hh : (Py d).run .N (segStr txt sv i sg) = some .N := by
+      cases sg with
+      | lit s => simpa [Seg.total, segStr] using ht.1
+      | esc => exact A11_le_Py d hd _ .N .N (escape_special_scanned (txt i))
+      | raw => simp [Seg.total] at ht
+      | safe => exact hsv i
+    exact run_append_ok (Py d) hh hr
+
+/-- **`handler_literal_valid`**: a handler template in which the error text occurs only as `{escape(…)}` (`tplTotal`: literal pieces
+    well formed, no raw interpolation) assembles a well-formed literal for ALL error texts `txt` (and all harmless values `sv`):
+    the statement cannot raise, whatever is reported. -/
+theorem handler_literal_valid (d : Char) (hd : d = '"' ∨ d = '\'') (tpl : List Seg) (ht : tplTotal d tpl = true) (txt sv : Nat → Str)
+    (hsv : ∀ i, (Py d).run .N (sv i) = some .N) : validLit d (render txt sv tpl) = true := by
+  unfold render
+  rw [collapse_valid d hd]
+  simp [validLit, segs_valid d hd txt sv hsv tpl 0 ht]
+
+/-- the template of the shipped helper `warning of colang errors`:  "Colang error: {$event.type} - {escape($event.error)}" -/
+def shippedTpl : List Seg := [.lit "Colang error: ".toList, .safe, .lit " - ".toList, .esc]
+example : tplTotal '"' shippedTpl = true := by decide
+
+/-- **`report_loop_terminates`**: if the handler raises on none of the queued reports, the error-report loop performs exactly one
+    handler activation per report and stops (any surplus fuel is left unused). -/
+theorem report_loop_terminates {Text : Type} (h : Text → Option Text) (q : List Text) (k : Nat) (hq : ∀ t ∈ q, h t = none) :
+    runLoop h (q.length + k) q = (q.length, []) := runLoop_total h q k hq
+
+/-- **`report_loop_diverges`**: if there is a class of texts on which the handler raises and whose new report is in the class again,
+    a non-empty queue of such reports is never worked off: every unit of fuel is used, the queue never empties (the hypothesis of
+    `report_loop_terminates` is needed). -/
+theorem report_loop_diverges {Text : Type} (h : Text → Option Text) (Bad : Text → Prop)
+    (hb : ∀ t, Bad t → ∃ t', h t = some t' ∧ Bad t') (fuel : Nat) (q : List Text) (hq : q ≠ []) (hall : ∀ t ∈ q, Bad t) :
+    (runLoop h fuel q).1 = fuel ∧ (runLoop h fuel q).2 ≠ [] := runLoop_diverges h Bad hb fuel q hq hall
+
+/-- **`shipped_helper_terminates`**: the loop of the shipped helper (class name `ty`: any well-formed piece) stops after one activation per
+    report, for EVERY queue of error texts. -/
+theorem shipped_helper_terminates (ty : Str) (hty : (Py '"').run .N ty = some .N) (q : List Str) (k : Nat) :
+    runLoop (tplHandler (fun t => render (fun _ => t) (fun _ => ty) shippedTpl) '"') (q.length + k) q = (q.length, []) := by
+  apply report_loop_terminates
+  intro t _
+  have := handler_literal_valid '"' (Or.inl rfl) shippedTpl (by decide) (fun _ => t) (fun _ => ty) (fun _ => hty)
+  simp [tplHandler, this]
+
+example : (Py '"').run .N "ColangValueError".toList = some .N := by decide
+
+/-! #### what breaks it -/
+
+/-- seed C10-d: `escape` delegates the quotes to `escape_special_string_characters` (after doubling the backslashes) -/
+def seedEscape (s : Str) : Str := escSpecial (rep2 '}' (rep2 '{' (rep1 '\\' ['\\', '\\'] s)))
+
+/-- a backslash in front of a double quote: after the doubling the quote still follows a backslash and stays bare — the literal of
+    the shipped helper ends early -/
+theorem seed_escape_counterexample :
+    validLit '"' (collapse ("Colang error: T - ".toList ++ escSpecial (seedEscape ['\\', '"']))) = false := by decide
+
+/-- the pinned tree without fixes/C10-escape-unencodable.diff: a NUL in the error text survives `escape` -/
+theorem escape_nul_as_is_counterexample :
+    validLit '"' (renderAsIs (fun _ => ['a', nul, 'b']) (fun _ => ['T']) shippedTpl) = false := by decide
+
+example : validLit '"' (render (fun _ => ['a', nul, 'b']) (fun _ => ['T']) shippedTpl) = true := by decide
+
+/-- interpolating the error text WITHOUT `escape` (`"E: {$ev.error}"`) is not total: the quote pass of
+    `escape_special_string_characters` leaves the second of two adjacent quotes bare — and every evaluation error text starts with
+    `Error evaluating '"…` when the failing expression starts with a string literal -/
+theorem raw_interpolation_counterexample :
+    validLit '"' (render (fun _ => "Error evaluating '\"t\" + 3'".toList) (fun _ => []) [.lit "E: ".toList, .raw]) = false := by decide
+
+example : tplTotal '"' [.lit "E: ".toList, .raw] = false := by decide
+
+/-- the seeded helper on `\"`: three activations, three new reports, nothing worked off (kernel-evaluated instance of divergence) -/
+example : (runLoop (tplHandler (fun t => collapse ("Colang error: T - ".toList ++ escSpecial (seedEscape t))) '"') 3 [['\\', '"']]).1 = 3 ∧
+    (runLoop (tplHandler (fun t => collapse ("Colang error: T - ".toList ++ escSpecial (seedEscape t))) '"') 3 [['\\', '"']]).2.length = 1 := by
+  decide
+
+/-! #### the round in phases -/
+open NemoVerif.RoundMachine in
+/-- **`phased_round_bound`**: a round read in phases (one phase per popped ColangError; each phase a run of the token machine from the
+    snapshot `T` of the state at that pop) takes at most the sum of the phase bounds `B(program, T)` steps. With `report_loop_terminates`
+    (one phase per error raised by a flow other than the handlers) this bounds the whole round. -/
+theorem phased_round_bound (P : RProg) (p : Pot) (hk : potOk P p = true) :
+    ∀ (phases : List (Nat × List Token × List Token)), (∀ ph ∈ phases, Run P ph.1 ph.2.1 ph.2.2) →
+      (phases.map (·.1)).sum ≤ (phases.map fun ph => roundBound P p ph.2.1).sum := by
+  intro phases
+  induction phases with
+  | nil => intro _; simp
+  | cons ph r ih =>
+    intro h
+    have h1 := run_bound hk (h ph (by simp))
+    have h2 := ih (fun x hx => h x (by simp [hx]))
+    simp only [List.map_cons, List.sum_cons, roundBound] at h2 ⊢
+    omega
+
+end NemoVerif.C10.Report
